@@ -27,6 +27,7 @@ REQUIRED_COUNTERS = {"asked_from_descendant": {"quick": 100, "thorough": 1000},
                      "asked_from_self": {"quick": 50, "thorough": 500},
                      "lifecycle_cases": {"quick": 10, "thorough": 30},
                      "frameless_parent_cases": {"quick": 6, "thorough": 6},
+                     "self_extraction_at_call_depth_one": {"quick": 4, "thorough": 4},
                      "greenback_extractions": {"quick": 80, "thorough": 320},
                      "portal_with_portal_run_sync": {"quick": 5, "thorough": 20},
                      "greenback_resumed_by_throw": {"quick": 5, "thorough": 7}}
@@ -205,6 +206,34 @@ def worker(spec):
                     g.throw(greenlet.GreenletExit)
                 except BaseException:
                     pass
+        # the calling greenlet extracts itself straight from its entry function (call depth exactly 1), below
+        # parents of every kind
+        for pkind in ("main", "live", "unstarted", "dead"):
+            box = {}
+
+            def self_entry():
+                me = greenlet.getcurrent()
+                box["r"] = (extract(me), [sys._getframe(0)])
+                return 0
+
+            def live_parent_body():
+                g2 = greenlet.greenlet(self_entry)     # parent = this (live, non-main) greenlet
+                g2.switch()
+
+            res.count("self_extraction_at_call_depth_one")
+            if pkind == "main":
+                greenlet.greenlet(self_entry).switch()
+            elif pkind == "live":
+                greenlet.greenlet(live_parent_body).switch()
+            else:
+                par = greenlet.greenlet(lambda *a: None)
+                if pkind == "dead":
+                    par.switch()
+                greenlet.greenlet(self_entry, parent=par).switch()
+            if "r" not in box:
+                res.violation(kind="harness: entry function did not run", parent=pkind, interp=interp)
+            else:
+                judge("entry function extracts itself, parent %s" % pkind, 0, "self", box["r"][0], box["r"][1])
         for rep in range(spec["reps"]):
             def fn():
                 return 1
